@@ -8,6 +8,7 @@ use serde_json::json;
 
 #[derive(Default)]
 pub struct Mon {
+    dump0: Option<Vec<(Vec<u8>, Vec<u8>)>>,
     max_tree: usize,
     faulted: u64,
     natural_failures: u64,
@@ -52,6 +53,7 @@ fn first_diff(a: &[(Vec<u8>, Vec<u8>)], b: &[(Vec<u8>, Vec<u8>)]) -> String {
 
 impl Monitor for Mon {
     fn before(&mut self, it: &mut Interp, act: &Act, _pre: &Obs, out: &mut Outcome) -> Option<Violation> {
+        self.dump0 = None;
         if !matches!(
             act,
             Act::Open { .. } | Act::Close { .. } | Act::Deposit { .. } | Act::Withdraw { .. } | Act::Liquidate { .. } | Act::PayFunding { .. }
@@ -59,6 +61,7 @@ impl Monitor for Mon {
             return None;
         }
         let snap = it.w.snapshot();
+        self.dump0 = Some(snap.kv.clone());
         // learn the message tree on a what-if run
         let r0 = it.exec_act(act);
         let n = r0.n_msgs;
@@ -129,6 +132,18 @@ impl Monitor for Mon {
             out.count("natural_failures");
             // Obs equality is implied by dump equality, which `before` checks for injected faults; for natural
             // failures compare the observable state and balances
+            if let Some(d0) = self.dump0.take() {
+                let d1 = w.dump();
+                if d0 != d1 {
+                    return Some(
+                        Violation::new(
+                            "failed_tx_changed_state",
+                            format!("{} failed ({}) but the raw storage dump changed: {}", s.act.name(), s.res.err, first_diff(&d0, &d1)),
+                        )
+                        .with("act", s.act.name()),
+                    );
+                }
+            }
             if s.pre != s.post {
                 return Some(
                     Violation::new(
@@ -157,9 +172,9 @@ pub fn prop() -> HistProp {
         weights: w,
         min_ops: 3,
         max_ops: (25, 60),
-        cases: (6_000, 150_000),
+        cases: (20_000, 300_000),
         make: || Box::new(Mon::default()),
-        rule: "for every Open/Close/Deposit/Withdraw/Liquidate/PayFunding transaction of a generated history (cw20 and native, fees, shortfall paths): the transaction is first run on a what-if copy to learn its message tree (every message dispatched by a contract of the deployment to the vAMM, the collateral token, the insurance fund or the bank, depth first); then, from the restored pre-state, it is re-run once per tree node with that node failing instead of executing (exhaustive within the transaction): the call must return Err and the full raw key/value dump of the chain store (all contracts + bank) must equal the pre-state dump. Natural failures (allowance, balance, closed/over-limit vAMM, slippage limit, bad debt) must leave every observable unchanged. After every transaction the engine's raw keys tmp-swap, sent-funds, tmp-liquidator must be absent. evaluations = faulted executions. Non-trivial: a history containing a transaction with a message tree of >= 3 nodes. Distinct by digest of (cfg, ops).",
+        rule: "for every Open/Close/Deposit/Withdraw/Liquidate/PayFunding transaction of a generated history (cw20 and native, fees, shortfall paths): the transaction is first run on a what-if copy to learn its message tree (every message dispatched by a contract of the deployment to the vAMM, the collateral token, the insurance fund or the bank, depth first); then, from the restored pre-state, it is re-run once per tree node with that node failing instead of executing (exhaustive within the transaction): the call must return Err and the full raw key/value dump of the chain store (all contracts + bank) must equal the pre-state dump. Natural failures (allowance, balance, closed/over-limit vAMM, slippage limit, bad debt) must leave the raw dump and every observable unchanged. After every transaction the engine's raw keys tmp-swap, sent-funds, tmp-liquidator must be absent. evaluations = faulted executions. Non-trivial: a history containing a transaction with a message tree of >= 3 nodes. Distinct by digest of (cfg, ops).",
         assumptions: &["crash points are sub-message boundaries (where CosmWasm can fail a transaction); a contract panic is a failed transaction", "pre-states and operations are sampled; fault positions within each sampled transaction are enumerated completely"],
         eval_counter: Some("faulted_executions"),
     }
